@@ -26,6 +26,16 @@ impl G {
         a.extend(self.els(n));
         cmdo(&a)
     }
+    /// a push made by a script (the DSL syntax of C12 that the model parses): EVAL <script> 1 key element
+    fn script_push(&mut self) -> V {
+        let name: &[u8] = if self.r.chance(1, 2) { b"LPUSH" } else { b"RPUSH" };
+        let mut lit = String::from("\"");
+        for c in name { lit += &format!("\\{:03}", c); }
+        lit.push('"');
+        let src = format!("local r={{}}\nr[1]=redis.call({},KEYS[1],ARGV[1])\nreturn r[1]", lit);
+        let k = self.key(); let e = self.els(1);
+        cmdo(&[b"EVAL".to_vec(), src.into_bytes(), b"1".to_vec(), k, e[0].clone()])
+    }
     fn pop(&mut self) -> V {
         let k = if self.r.chance(1, 14) { b"s".to_vec() } else { self.key() };
         cmdo(&[if self.r.chance(1, 2) { b"LPOP".to_vec() } else { b"RPOP".to_vec() }, k])
@@ -103,12 +113,17 @@ pub fn gen(seed: u64, n: usize, _tier: &str) -> Vec<Case> {
                     }
                 }
                 36 => {
-                    // requests written behind a blocking call in the SAME write: the server runs them although the
-                    // connection has just become blocked (class pipelined-behind-block)
-                    let q1 = g.bpop(); let q2 = if g.r.chance(1, 2) { g.push() } else { g.bpop() };
+                    // requests written behind a blocking call in the SAME write: they wait until the connection is
+                    // unblocked (939522b; class pipelined-behind-block before)
+                    // (the call in front cannot time out: what waits behind it would run at its deadline,
+                    // between two instants of the logical clock, racing with the other deadlines)
+                    let mut q1 = g.bpop();
+                    if let V::Array(l) = &mut q1 { if let Some(V::Bulk(t)) = l.last_mut() { if t == b"0.3" || t == b"0.9" { *t = b"0".to_vec(); } } }
+                    let q2 = if g.r.chance(1, 2) { g.push() } else { g.bpop() };
                     ops.push(bsend_op(c, &[q1, q2])); if g.r.chance(1, 2) { ops.push(brecv_op(c)); }
                 }
                 37 => { ops.push(bsend_op(c, &[cmdv(&[b"LLEN", &g.key()])])); ops.push(brecv_op(c)); }
+                39 => { let q = g.script_push(); if g.r.chance(1, 2) { ops.push(cmd_frame_op(OBS, &q)); } else { ops.push(bsend_op(c, &[q])); ops.push(brecv_op(c)); } }
                 38 => {
                     // the key of a wake-up under way turns into a string before the wake-up runs
                     let k = g.key(); let e = g.els(1);
@@ -165,6 +180,7 @@ pub fn judge(c: &Case, outs: &[Vec<Tok>]) -> Vec<String> {
                got: &mut Vec<(Vec<u8>, usize)>, dbof: &mut HashMap<i128, i64>, conn: i128) {
         match (&rq.name[..], v) {
             (b"LPUSH", V::Int(n)) | (b"RPUSH", V::Int(n)) if *n > 0 => { for e in &rq.args[1..] { acked.push((e.clone(), ix)); } }
+            (b"EVAL", V::Int(n)) if *n > 0 && rq.args.len() == 4 => acked.push((rq.args[3].clone(), ix)),
             (b"LPOP", V::Bulk(e)) | (b"RPOP", V::Bulk(e)) => got.push((e.clone(), ix)),
             (b"BLPOP", V::Array(l)) | (b"BRPOP", V::Array(l)) => {
                 match (l.get(0), l.get(1)) {
@@ -200,6 +216,7 @@ pub fn judge(c: &Case, outs: &[Vec<Tok>]) -> Vec<String> {
                     let nm = req_name(rq);
                     let args: Vec<Vec<u8>> = match rq { V::Array(l) => l.iter().skip(1).map(|x| match x { V::Bulk(b) => b.clone(), _ => b"?".to_vec() }).collect(), _ => vec![] };
                     if (nm == b"LPUSH" || nm == b"RPUSH") && args.len() >= 2 { for e in &args[1..] { *sent.entry(e.clone()).or_insert(0) += 1; } }
+                    if nm == b"EVAL" && args.len() == 4 { *sent.entry(args[3].clone()).or_insert(0) += 1; }
                     if blocked_before || pend.get(&conn).map_or(false, |q| q.iter().any(|r| is_block(&r.name) && r.oms >= 0 && !r.queued)) { behind_block = true; }
                     let in_multi = *send_multi.get(&conn).unwrap_or(&false);
                     if nm == b"MULTI" { send_multi.insert(conn, true); }
@@ -246,6 +263,7 @@ pub fn judge(c: &Case, outs: &[Vec<Tok>]) -> Vec<String> {
                 let args: Vec<Vec<u8>> = match &rq { V::Array(l) => l.iter().skip(1).map(|x| match x { V::Bulk(b) => b.clone(), _ => b"?".to_vec() }).collect(), _ => vec![] };
                 let mut p2 = 0; let v = match V::dec(out, &mut p2) { Some(v) => v, None => continue };
                 if (nm == b"LPUSH" || nm == b"RPUSH") && args.len() >= 2 { for e in &args[1..] { *sent.entry(e.clone()).or_insert(0) += 1; } }
+                if nm == b"EVAL" && args.len() == 4 { *sent.entry(args[3].clone()).or_insert(0) += 1; }
                 let r = Req { name: nm.clone(), args: args.clone(), t: tok_int(&op[2]), oms: -2, db: 0, queued: false };
                 account(&r, &v, ix, tok_int(&op[2]), &c.id, &mut fails, &mut acked, &mut got, &mut dbof, tok_int(&op[1]));
                 if nm == b"LRANGE" {
